@@ -409,7 +409,7 @@ class NameSource(Source):
         node.set('source', '#' + self.id + '-array')
         node.set('stride', str(len(self.components)))
         for c in self.components:
-            node.append(E.param(type='IDREF', name=c))
+            node.append(E.param(type='Name', name=c))
         self.xmlnode.set('id', self.id)
 
     @staticmethod
